@@ -802,10 +802,8 @@ class Term:
         return self.subst(inst).beta_norm()
 
     def occurs_var(self, t: Term) -> Term:
-        """Whether the variable t occurs in self."""
-        if self.is_svar():
-            return False
-        if self.is_var():
+        """Whether the variable (or schematic variable) t occurs in self."""
+        if self.is_svar() or self.is_var():
             return self == t
         elif self.is_const():
             return False
